@@ -34,7 +34,10 @@ RULE = ("seeded synthetic systems (2-4 md-variables with random dof types on sub
         "system (5 per thorough-tier system): equation subsets in random list order given as "
         "names, operators, dict name->grid subset (also empty), lists mixing the three, a name "
         "first unrestricted then restricted; variable subsets as names / md-variables / atomic "
-        "variables / None / []; optional explicit state; plus the mass-and-energy model on a "
+        "variables / None / []; optional explicit state; per synthetic system one re-definition "
+        "history (restrictions assembled, the equation re-defined under its name on other "
+        "grids / with other equations per entity through update_equation or remove + set, "
+        "the same restrictions assembled again); plus the mass-and-energy model on a "
         "fractured square; non-trivial = the restriction drops at least one row and one "
         "column block and keeps at least one row; distinct = case hash")
 REACH = [
@@ -61,7 +64,9 @@ REQUIRED = {"restrictions_checked": 40, "jacobian_slices_compared": 40,
             "restriction_form_unrestricted_then_restricted": 2, "restriction_form_none": 2,
             "restriction_empty_grid_list": 1, "variables_form_none": 2, "variables_form_subset": 10,
             "explicit_state": 3, "model_systems": 1, "interface_equations_restricted": 2,
-            "grid_restricted_rows_dropped": 10}
+            "grid_restricted_rows_dropped": 10,
+            "redefinition:restrictions_compared_after": 20,
+            "redefinition:rows_of_a_kept_grid_moved": 3}
 ASSUMPTIONS = [
     "a variable selection names every atomic variable at most once (documented: the list is "
     "not uniquified; duplicates would duplicate columns)",
@@ -171,7 +176,103 @@ def _synthetic(case):
     T = _Sys()
     T.es, T.ref, T.blocks, T.ops, T.n, T.m = S.es, S.ref, S.blocks, S.ops, S.n, S.m
     T.mdg = mdg
+    T.S, T.res, T.J, T.c = S, res, J, c
     return T
+
+
+def _redefine(T, case, mon):
+    """History on ONE equation system: restrictions of an equation are assembled, the
+    equation is re-defined under its name (other grids and / or other equations per
+    entity; it moves to the end of the set order), and the same restrictions are assembled
+    again: they are the rows of the *new* full system."""
+    import porepy as pp
+    from pvm.ref.c05_layout import block_size
+    es, S, res = T.es, T.S, T.res
+    rng = np.random.default_rng([case["seed"], 777])
+    j = int(rng.integers(0, len(res["eqs"])))
+    e = res["eqs"][j]
+    name = e["name"]
+    old = T.blocks[j]
+    assert old.name == name
+    # prime: every single-grid restriction and the full grid list, by name and by operator
+    primed = [[g] for g in old.grids] + [list(old.grids)]
+    for gs in primed:
+        es.assemble(equations={name: list(gs)})
+        es.assemble(evaluate_jacobian=False, equations={T.ops[name]: list(gs)})
+        mon.count("redefinition:restrictions_assembled_before")
+    pool = list(T.mdg.interfaces()) if e["kind"] == "intf" else list(T.mdg.subdomains())
+    keep = old.grids[int(rng.integers(0, len(old.grids)))]
+    grids = cs.pick_grids(pool, int(rng.integers(1, 2**31)), float(rng.choice([0.5, 0.8, 1.0])))
+    if not any(g is keep for g in grids):
+        grids.append(keep)
+    per = dict(e["per"])
+    if rng.random() < 0.5:
+        per = _rand_dof(rng, e["kind"])
+        if e["kind"] == "intf":
+            per = {"cells": max(1, per.get("cells", 1))}
+    if sum(block_size(g, per, e["kind"] == "intf") for g in grids) == 0:
+        per["cells"] = 1
+    new_e = {"name": name, "kind": e["kind"], "grids": grids, "per": per}
+    eqs2 = [x for k, x in enumerate(res["eqs"]) if k != j] + [new_e]
+    blocks2, m2 = cs.eq_layout(T.mdg, eqs2)
+    nb = blocks2[-1]
+    Jn = cs.random_J(rng, nb.total, T.n)
+    cn = rng.uniform(-1, 1, nb.total)
+    op = cs.make_operator(S, Jn, cn, name)
+    via_update = rng.random() < 0.6
+    if via_update:
+        same_g = [id(g) for g in grids] == [id(g) for g in e["grids"]]
+        es.update_equation(name, op, None if same_g else list(grids),
+                           None if per == e["per"] else dict(per))
+        mon.count("redefinition:update_equation")
+    else:
+        es.remove_equation(name)
+        es.set_equation(op, list(grids), dict(per))
+        mon.count("redefinition:remove_then_set")
+    moved = any(not np.array_equal(old.local[id(g)], nb.local[id(g)])
+                for g in nb.grids if id(g) in old.local)
+    if moved:
+        mon.count("redefinition:rows_of_a_kept_grid_moved")
+    mon.klass("redefined:" + ("moved" if moved else "same-local-rows"))
+    A_full, b_full = es.assemble()
+    A_full = A_full.toarray()
+    if A_full.shape != (m2, T.n):
+        mon.violation("redefinition:full-system-shape", {"got": list(A_full.shape),
+                                                         "want": [m2, T.n]})
+        return
+    idx = es.assembled_equation_indices
+    want = {b_.name: b_.rows() for b_ in blocks2}
+    if list(idx) != list(want) or any(not np.array_equal(idx[k], want[k]) for k in want):
+        mon.violation("redefinition:full-assembly-row-indices",
+                      {"got_order": list(idx), "want_order": list(want)})
+        return
+    sc = max(1.0, float(np.max(np.abs(A_full))) if A_full.size else 1.0)
+    scb = max(1.0, float(np.max(np.abs(b_full))) if b_full.size else 1.0)
+    new_ids = {id(g) for g in nb.grids}
+    again = [gs for gs in primed if all(id(g) in new_ids for g in gs)] + [list(nb.grids)]
+    for gs in again:
+        rows = nb.rows(gs)
+        detail = {"equation": name, "grids": [T.ref.pos(g) for g in gs],
+                  "redefined_by": "update_equation" if via_update else "remove+set",
+                  "old_grids": [T.ref.pos(g) for g in old.grids],
+                  "new_grids": [T.ref.pos(g) for g in nb.grids],
+                  "old_per": e["per"], "new_per": per}
+        A_r, b_r = es.assemble(equations={name: list(gs)})
+        mon.count("redefinition:restrictions_compared_after")
+        if A_r.shape[0] != rows.size:
+            mon.violation("redefinition:restricted-rows-stale-after-redefinition",
+                          dict(detail, got_rows=int(A_r.shape[0]), want_rows=int(rows.size)))
+            continue
+        mon.close("redef_jacobian_slice", A_r.toarray(), A_full[rows], TOL,
+                  "redefinition:restricted-rows-stale-after-redefinition", scale=sc,
+                  detail=detail)
+        mon.close("redef_residual_slice", b_r, b_full[rows], TOL,
+                  "redefinition:restricted-rows-stale-after-redefinition", scale=scb,
+                  detail=detail)
+        b_o = es.assemble(evaluate_jacobian=False, equations={op: list(gs)})
+        mon.close("redef_residual_only", b_o, b_full[rows], TOL,
+                  "redefinition:restricted-rows-stale-after-redefinition", scale=scb,
+                  detail=detail)
 
 
 def _model(case):
@@ -443,6 +544,7 @@ def check(case, mon):
         mon.measure("system_rows", T.m)
         mon.measure("system_dofs", T.n)
         _check_system(T, case, mon)
+        _redefine(T, case, mon)
 
 
 def warmup():
